@@ -73,7 +73,8 @@ def run(ctx):
                 f = mod.get(repl.id)
                 if isinstance(f, ast.FunctionDef):
                     n_tpl += 1
-                    lits = [n.value for n in ast.walk(f) if isinstance(n, ast.Constant) and isinstance(n.value, str)]
+                    # only what can end up in the returned replacement text: literals inside return expressions
+                    lits = [n.value for r_ in ast.walk(f) if isinstance(r_, ast.Return) and r_.value is not None for n in ast.walk(r_.value) if isinstance(n, ast.Constant) and isinstance(n.value, str)]
                     g = sum(capturing_groups_in_fragment(l) for l in lits)
                     ctx.check("no-capturing-template", where, g == 0, f"helper {repl.id} returns no capturing group (literals {lits})", construct=str(lits))
     ctx.require(n_tpl >= 20, f"only {n_tpl} replacement templates found (hand-confirmed: 24)")
